@@ -114,6 +114,11 @@ impl World {
         s
     }
 
+    /// `s` with the `$gN` placeholders replaced by the generated keys
+    pub fn real(&self, s: &str) -> String {
+        String::from_utf8_lossy(&self.subst(s.as_bytes())).to_string()
+    }
+
     pub fn raw_path(t: &Target) -> String {
         match t {
             Target::Root => "/".into(),
@@ -139,7 +144,8 @@ impl World {
             Body::Malformed => vec![0xff, 0x00, b'{'],
             Body::Rpc { method, name, key, pvar, .. } => {
                 let params = match r.target {
-                    Target::Root => root_params(name.as_deref(), key.as_deref()),
+                    // a `$gN` placeholder used as a *given* key means "the key the server generated then"
+                    Target::Root => root_params(name.as_deref(), key.as_deref().map(|k| self.real(k)).as_deref()),
                     _ => db_params(method, pvar),
                 };
                 let v = json!({"method": method, "params": params});
@@ -325,6 +331,9 @@ pub fn canon_impl(r: &Req, resp: &ImplResp) -> String {
         let msg = e.get("message").and_then(|c| c.as_str()).unwrap_or("");
         let detail = match code {
             "unauthorized" | "unsupported_media_type" | "limit_exceeded" => "-".to_string(),
+            // engine errors are sanitised to one constant message; on the root route that is a
+            // modelled outcome (persistence refused by a read-only primary)
+            "internal" if matches!(r.target, Target::Root) && msg == "internal server error" => "-".to_string(),
             "bad_request" if msg.starts_with("failed to parse") => "body".into(),
             "method_not_found" => format!("m:{}", hex_str(msg.strip_prefix("method not found: ").unwrap_or("?"))),
             "invalid_input" if msg.starts_with("invalid params") => "params".into(),
